@@ -151,7 +151,41 @@ class Ctx:
             m = re.findall(r'File "([^"]+)", line (\d+)', out)
             self.broken.append({"kind": "proof", "files": files, "where": m[-3:], "detail": tail})
         self._collect_assumptions(out)
+        if ok and good and self.tier == "thorough":
+            self.coqchk(files)
         return ok and good
+
+    def coqchk(self, files):
+        """thorough tier: re-check the compiled property files and everything they depend on with the independent
+        checker; its axiom list (every axiom of every loaded library) goes into the evidence"""
+        mods = ["FV." + f[:-2].replace("/", ".") for f in files]
+        t0 = time.time()
+        try:
+            r = subprocess.run(["coqchk", "-silent", "-o", "-Q", ".", "FV"] + mods, cwd=COQ, capture_output=True, text=True, timeout=3000)
+        except subprocess.TimeoutExpired:
+            self.broken.append({"kind": "coqchk", "name": "coqchk timed out", "files": files})
+            return False
+        out = r.stdout + r.stderr
+        self.checker_cmds.append("coqchk -silent -o -Q . FV " + " ".join(mods))
+        axioms, sect = [], None
+        flags = {}
+        for line in out.splitlines():
+            m = re.match(r"^\* (.*?):\s*(<none>)?\s*$", line.strip())
+            if m:
+                sect = m.group(1)
+                flags[sect] = [] if not m.group(2) else None
+                continue
+            if sect and line.startswith("    ") and flags.get(sect) is not None:
+                flags[sect].append(line.strip())
+        axioms = flags.get("Axioms") or []
+        self.cov["coqchk"] = {"modules": mods, "exit": r.returncode, "wall_s": round(time.time() - t0, 1), "axioms_of_all_loaded_libraries": len(axioms),
+                              "axioms_outside_primitive_ints_floats": sorted(a for a in axioms if "Uint63" not in a and "PrimInt63" not in a and "PrimFloat" not in a and "Sint63" not in a and "FloatAxioms" not in a and "PArray" not in a and "FloatOps" not in a)[:60]}
+        unsafe = {k: v for k, v in flags.items() if k != "Axioms" and v}
+        if r.returncode != 0 or unsafe:
+            self.broken.append({"kind": "coqchk", "name": "coqchk rejected the compiled files or reports unsafe flags", "detail": (out[-800:] if r.returncode else str(unsafe))})
+            return False
+        self.log(f"coqchk ok on {mods} in {time.time() - t0:.0f}s ({len(axioms)} library axioms listed)")
+        return True
 
     def _collect_assumptions(self, out: str):
         # Print Assumptions output: "Closed under the global context" or "Axioms:\n name : type ..."
@@ -342,7 +376,7 @@ class Ctx:
             "seed": self.seed,
             "level": "proof",
             "coverage": cov,
-            "assumptions": self.assumptions,
+            "assumptions": list(dict.fromkeys(self.assumptions_seen + self.trusted + self.assumptions)),
             "wall_s": round(time.time() - self.t0, 2),
             "violations": len(unlisted) + (1 if (self.broken and not unlisted) else 0),
         }
